@@ -95,7 +95,8 @@ def check(run):
     cases, progs = gen_cases(run)
     shown = {"c10": 0, "corr": 0, "hook": 0, "known": 0}
     n_fail = 0
-    for e, evs, a, m, v in X.run_ast_batch(run, binpath, "C10a", cases):
+    ast_out, prog_out = X.run_all(run, binpath, "C10", cases, progs)
+    for e, evs, a, m, v in ast_out:
         key = X.r_expr(e)
         changed = "folded" in a and "panic" not in a.get("folded", {}) and X.r_expr(a["folded"]) != key if "abort" not in a else False
         has_val = "res" in a and any("v" in r[0] for r in a["res"])
@@ -135,7 +136,7 @@ def check(run):
         if v["corr"] and shown["corr"] < 3:
             shown["corr"] += 1
             run.tie_broken("correspondence Expr/Model.v vs optimize.rs/evaluator.rs on %s" % X.short(X.to_text(e), 200), "; ".join(v["corr"])[:1500] + " events=" + X.short(evs, 600))
-    for c, a, v in X.run_program_batch(run, binpath, "C10p", progs):
+    for c, a, v in prog_out:
         where, emits, evs, text = c
         run.case(("prog", text) if "out" in a.get("run_folded", {}) and any(a["run_folded"]["out"]) else None,
                  {"program": text} if run.evaluations % 97 == 0 else None)
